@@ -26,7 +26,7 @@ def strata(tier):
         maxsizes=(2, 1, 3, 5, None, 0),
         weights={'call': 16, 'burst': 1, 'load': 2, 'dump': 2, 'dumpk': 1, 'loadk': 1, 'clear': 1, 'clearkeep': 1,
                  'arch_off': 1, 'arch_on': 1, 'awrite': 1, 'redecorate': 1, 'dumpreopen': 1},
-        max_ops=30 if tier == 'quick' else 60, pool=(3, 8), prefill_pct=10, rich_args=True)
+        max_ops=30 if tier == 'quick' else 60, pool=(3, 8), attach_later_pct=12, prefill_pct=10, rich_args=True)
 
 
 def check_trace(case, tr):
